@@ -129,4 +129,87 @@ example :
     r.2 = .failed ∧ r.1.read (joinPath "o".toList marker) = none ∧ r.1.files.length = 2 := by decide
 example : (saveText ⟨[], ["o".toList]⟩ "o".toList [[]] 3 (fun _ => false) (fun _ _ => false)).2 = .alreadyExists := by decide
 
+
+/-! ### torn writes: a write may also fail after the file has come into being with part of its content -/
+
+-- OBLIGATION: PysparklingVerif.C09.torn_generalises
+/-- the torn-write state machine with no torn write is the state machine above -/
+theorem torn_generalises (fs : FS) (path : Str) (parts : List (List Str)) (maxR : Nat)
+    (wfail : Nat → Bool) (cfail : Nat → Nat → Bool) :
+    saveTextT fs path parts maxR wfail (fun _ => false) cfail = saveText fs path parts maxR wfail cfail :=
+  saveTextT_notorn fs path parts maxR wfail cfail
+
+-- OBLIGATION: PysparklingVerif.C09.exists_refused_unchanged_torn
+theorem exists_refused_unchanged_torn (fs : FS) (path : Str) (parts : List (List Str)) (maxR : Nat)
+    (wfail torn : Nat → Bool) (cfail : Nat → Nat → Bool) (h : fs.pathExists path = true) :
+    saveTextT fs path parts maxR wfail torn cfail = (fs, .alreadyExists) :=
+  saveTextT_exists fs path parts maxR wfail torn cfail h
+
+-- OBLIGATION: PysparklingVerif.C09.marker_implies_complete_torn
+/-- for EVERY crash point, also inside a write: if the marker is present after a multi-partition save then every
+partition file is present with exactly its partition's text — a partial file left by a torn write has always been
+overwritten by a later, complete attempt before the marker could be written. (The call itself may still have
+raised: exactly when the write of the — empty — marker was the torn one.) -/
+theorem marker_implies_complete_torn (fs : FS) (path : Str) (parts : List (List Str)) (maxR : Nat)
+    (wfail torn : Nat → Bool) (cfail : Nat → Nat → Bool)
+    (hfree : fs.pathExists path = false) (hn : parts.length ≠ 1)
+    (hm : ((saveTextT fs path parts maxR wfail torn cfail).1.read (joinPath path marker)).isSome) :
+    ∀ i (hi : i < parts.length),
+      (saveTextT fs path parts maxR wfail torn cfail).1.read (joinPath path (partName i (codecSuffix path))) =
+        some ⟨getCodec (joinPath path (partName i (codecSuffix path))), encodePart parts[i]⟩ := by
+  rw [saveTextT_multi fs path parts maxR wfail torn cfail hfree hn] at hm ⊢
+  have hnone := savePartsT_marker_none fs path (codecSuffix path) parts maxR wfail torn cfail hfree
+  by_cases hok : (savePartsT maxR wfail torn cfail path (codecSuffix path) parts 0 ⟨fs, 0⟩).2 = true
+  · -- the marker write (complete or torn) goes to another name than every part file
+    rw [if_pos hok]
+    intro i hi
+    show (tryWriteT wfail torn (savePartsT maxR wfail torn cfail path (codecSuffix path) parts 0 ⟨fs, 0⟩).1
+        (joinPath path marker) []).1.fs.read _ = _
+    rw [tryWriteT_read_ne _ _ _ _ _ _ (fun h => markerPath_ne_partPath path _ i h.symm)]
+    simpa using savePartsT_ok_read maxR wfail torn cfail path (codecSuffix path) parts 0 ⟨fs, 0⟩ hok i hi
+  · -- the part-writing phase failed: the marker write is never reached
+    rw [if_neg hok] at hm
+    rw [hnone] at hm
+    simp at hm
+
+-- OBLIGATION: PysparklingVerif.C09.ok_implies_marker_torn
+/-- and a save that reports success has written the marker -/
+theorem ok_implies_marker_torn (fs : FS) (path : Str) (parts : List (List Str)) (maxR : Nat)
+    (wfail torn : Nat → Bool) (cfail : Nat → Nat → Bool)
+    (hfree : fs.pathExists path = false) (hn : parts.length ≠ 1)
+    (hr : (saveTextT fs path parts maxR wfail torn cfail).2 = .ok) :
+    ((saveTextT fs path parts maxR wfail torn cfail).1.read (joinPath path marker)).isSome := by
+  rw [saveTextT_multi fs path parts maxR wfail torn cfail hfree hn] at hr ⊢
+  by_cases hok : (savePartsT maxR wfail torn cfail path (codecSuffix path) parts 0 ⟨fs, 0⟩).2 = true
+  · rw [if_pos hok] at hr ⊢
+    by_cases hw : (tryWriteT wfail torn (savePartsT maxR wfail torn cfail path (codecSuffix path) parts 0 ⟨fs, 0⟩).1
+        (joinPath path marker) []).2 = true
+    · show ((tryWriteT wfail torn (savePartsT maxR wfail torn cfail path (codecSuffix path) parts 0 ⟨fs, 0⟩).1
+        (joinPath path marker) []).1.fs.read _).isSome
+      rw [tryWriteT_ok_read _ _ _ _ _ hw]
+      rfl
+    · simp [hw] at hr
+  · rw [if_neg hok] at hr
+    simp at hr
+
+-- OBLIGATION: PysparklingVerif.C09.leftovers_block_later_saves
+/-- whatever a failed save left behind — complete part files, a partial file of a torn write, nothing but the
+directory — a later save to the same path is refused and changes nothing, as soon as anything exists there -/
+theorem leftovers_block_later_saves (fs : FS) (path : Str) (parts parts2 : List (List Str)) (maxR maxR2 : Nat)
+    (wfail torn wfail2 : Nat → Bool) (cfail cfail2 : Nat → Nat → Bool)
+    (hleft : (saveTextT fs path parts maxR wfail torn cfail).1.pathExists path = true) :
+    saveText (saveTextT fs path parts maxR wfail torn cfail).1 path parts2 maxR2 wfail2 cfail2 =
+      ((saveTextT fs path parts maxR wfail torn cfail).1, .alreadyExists) :=
+  saveText_exists _ path parts2 maxR2 wfail2 cfail2 hleft
+
+-- non-vacuity: partition 0's first write is torn (half of "ab\n" stays behind), the retry completes it
+example :
+    let r := saveTextT ⟨[], []⟩ "out".toList [["ab".toList], ["c".toList]] 2 (fun k => k == 0) (fun k => k == 0) (fun _ _ => false)
+    r.2 = .ok ∧ (r.1.read "out/part-00000".toList).map (·.text) = some "ab\n".toList := by decide +kernel
+example :
+    let r := saveTextT ⟨[], []⟩ "out".toList [["ab".toList], ["c".toList]] 1 (fun k => k == 0) (fun k => k == 0) (fun _ _ => false)
+    r.2 = .failed ∧ (r.1.read "out/part-00000".toList).map (·.text) = some "a".toList ∧
+    r.1.read "out/_SUCCESS".toList = none := by decide +kernel
+
+
 end PysparklingVerif.C09
